@@ -128,7 +128,7 @@ func (m *c05Mon) finish(err error) {
 	} else {
 		vCover("ran-to-its-end")
 	}
-	if m.ctx.err == vErrDeadline {
+	if m.ctx.Err() == vErrDeadline {
 		vCover("deadline-kind")
 	}
 }
